@@ -332,7 +332,7 @@ static int chan_end_in_use(int chan, int end)
 {
 	int i;
 	for (i = 0; i < PL->nobj; i++)
-		if (PL->obj[i].kind == K_FD && RO[i].registered && PL->obj[i].p[0] == chan &&
+		if (PL->obj[i].kind == K_FD && (RO[i].registered || RO[i].xi[7]) && PL->obj[i].p[0] == chan &&
 		    (PL->obj[i].p[1] == end || RO[chan].ctype >= 2))
 			return 1;
 	for (i = 0; i < PL->nobj; i++)
@@ -508,7 +508,9 @@ static int op_reg(struct rthr *th, int id, const struct pop *op)
 		f->handler_err = fd_handler[2][o->hv[2]];
 		if (try) {
 			th->api_try = 1;
+			o->xi[7] = 1;	/* the descriptor is spoken for while the call is in progress (it yields) */
 			ret = iv_fd_register_try(f);
+			o->xi[7] = 0;
 			th->api_try = 0;
 			if (ret != 0) {
 				PROBE[PR_TRY_FAILED]++;
